@@ -31,6 +31,44 @@ def gen_cases(ck):
             add(bytes([v]) * 16, bytes([v ^ 0xFF]) * 16, "byte-sweep-uniform")
     for _ in range(2000 if big else 250):
         add(rnd16(r), rnd16(r), "random")
+    # keys containing 0x00 bytes (C-string handling) and 0xFF bytes
+    for pos in range(16):
+        k = bytearray(b"\x01" * 16 if pos % 2 else rnd16(r))
+        k[pos] = 0
+        add(bytes(k), rnd16(r), "key-with-zero-byte")
+    add(bytes(16), bytes(16), "all-zero")
+    add(b"\xff" * 16, b"\xff" * 16, "all-ff")
+    return cases
+
+
+def structured_state_cases(ck):
+    """blocks constructed (by running the extracted SPEC backwards) so that the state entering MixColumns in round r has
+    an all-zero column / a zero byte in chosen positions / equal bytes: the zero operand is a separate branch of the
+    table product Gmul(u,v) = v ? Alog[u+Log[v]] : 0.  Their ciphertexts hit the same states on the decryption side."""
+    r = ck.rng
+    mdrv = ck.model_driver()
+    big = ck.tier == "thorough"
+    probes = []
+    for rnd in range(1, 10):
+        for col in range(4):
+            for rep in range(3 if big else 1):
+                k = rnd16(r)
+                t = bytearray(rnd16(r))
+                t[4 * col:4 * col + 4] = bytes(4)
+                probes.append((k, bytes(t), rnd, "zero-column"))
+        k = rnd16(r)
+        t = bytearray(rnd16(r))
+        for q in r.sample(range(16), 5):
+            t[q] = 0
+        probes.append((k, bytes(t), rnd, "zero-bytes"))
+        probes.append((rnd16(r), bytes(16), rnd, "zero-state"))
+        probes.append((rnd16(r), bytes([r.randrange(256)]) * 16, rnd, "uniform-state"))
+    out = wv.run_lines([mdrv], ["q%d aesprobe %s %s %d" % (i, k.hex(), t.hex(), rnd) for i, (k, t, rnd, c) in enumerate(probes)])
+    cases = []
+    for i, (k, t, rnd, c) in enumerate(probes):
+        pt = out.get("q%d" % i)
+        if pt and len(pt) == 32:
+            cases.append((k, bytes.fromhex(pt), "round%d-%s" % (rnd, c)))
     return cases
 
 
@@ -46,6 +84,15 @@ def run(ck):
     ck.prove("Properties_C09", THEOREMS)
     exe = ck.impl_driver()
     cases = gen_cases(ck)
+    for k, pt, cls in structured_state_cases(ck):
+        cases.append(Case("aes e %s %s" % (k.hex(), pt.hex()), "aes", "enc/structured/" + cls.split("-", 1)[1]))
+    # decryption of the spec ciphertexts of the structured plaintexts reaches the same states before InvMixColumns
+    smap = wv.run_lines([ck.model_driver(), "spec"], ["t%d %s" % (i, c.line) for i, c in enumerate(cases) if c.cls.startswith("enc/structured")])
+    scases = [c for c in cases if c.cls.startswith("enc/structured")]
+    for i, c in enumerate(scases):
+        ct = smap.get("t%d" % i)
+        if ct and len(ct) == 32:
+            cases.append(Case("aes d %s %s" % (c.line.split()[2], ct), "aes", c.cls.replace("enc/", "dec/")))
     impl, model, spec = differential(ck, exe, cases, oracle)
     # inverse property on the implementation itself: dec(enc(b)) == b and enc(dec(b)) == b
     r = ck.rng
